@@ -322,6 +322,25 @@ def r14_7(ctx, fx):
                 ok = val == ["NotConnected"]
             ctx.ob("R14.7", "%s/writes-entry.connection" % who, ok, site=fn.site(node), cfg=fx.cfg,
                    detail="value %s; allowed writers: %s" % (val, sorted(CONNECTION_WRITERS)))
+            if "add_known_peer" in who:
+                # re-discovery must not downgrade: the write lies behind a test that the stored state is not Connected
+                # (`self.peers` of Kademlia is not the set of connected peers: connections the transport reports without a Kademlia
+                # dial mark the entry Connected but are not tracked there)
+                guard = set()
+                for c in fn.calls(r"PartialEq(<.*>)?>?::(ne|eq)$|::(ne|eq)$"):
+                    if any(fn.origin(a).endswith(".connection") for a in c.args) and any("Connected" in x and "NotConnected" not in x for a in c.args for x in fn.shape(a) | guards.rootstrs(fn, a)):
+                        for sw_, t, f in fn.bool_tests(c.dest[0]):
+                            guard.add((sw_, t if c.name.endswith("ne") else f))
+                for sw in fn.discr_switches():
+                    if fn.origin({"c": list(sw[1])}).endswith(".connection"):
+                        for v in list(sw[3]) + list(sw[5]):
+                            if v != "Connected":
+                                for lab in fn.variant_edges(sw, v):
+                                    if lab not in fn.variant_edges(sw, "Connected"):
+                                        guard.add((sw[0], lab))
+                okg = bool(guard) and node not in fn.reach([fn.entry], cut=guard)
+                ctx.ob("R14.7", "%s/re-discovery-never-downgrades-a-Connected-entry" % who, okg, site=fn.site(node), cfg=fx.cfg,
+                       detail="the Occupied-arm write of the caller's value must be guarded by `entry.connection != Connected` (guards found: %d)" % len(guard))
     ctx.anchor("R14.7", "writes to KademliaPeer.connection", n, 4, cfg=fx.cfg)
     m = 0
     for key in sorted(fx.callers_of("protocol::libp2p::kademlia::routing_table::RoutingTable::add_known_peer")):
